@@ -330,7 +330,7 @@ C["C06"]={"jobs":c06,"assumptions":RULE_ASSUME+["UAPI constants and struct offse
    "the Rule struct is built directly (flag text parsing is C07/C14's subject)","the top 16 bits of the last mask word are not constrained for the all-syscalls pattern (kernel syscall-class bits)"],
    "outside":["strings longer than 3 symbolic bytes (length limits are checked by C13's concrete long strings)","user/group names other than root"]}
 
-SHAPES=["aF","aFF","Fa","aS","aSk","aFk","Ak","aC","aCF","akk","aSS","w","wp","wk","wpk","pw","kw","D","Dk","F","S","C","aAF","aw","Dw","DaF","wF","","#aF","a#F","aF#","w#pk","wp#","D#","#D","aS#k","aSp","paS","aFp","Dp","pD","p","pk","Sp","Cp","wpp","pwp","wppk"]
+SHAPES=["aF","aFF","Fa","aS","aSk","aFk","Ak","aC","aCF","akk","aSS","w","wp","wk","wpk","pw","kw","D","Dk","F","S","C","aAF","aw","Dw","DaF","wF","","#aF","a#F","aF#","w#pk","wp#","D#","#D","aS#k","aSp","paS","aFp","Dp","pD","p","pk","Sp","Cp","wpp","pwp","wppk","wk#","aSk#","aFk#"]
 c14=[]
 for i,sh in enumerate(SHAPES):
     hole = 4 if sh.count("F")+sh.count("C")<=1 else 3
@@ -345,6 +345,9 @@ for i,sh in enumerate(SHAPES):
 for sh in ("aFk","aSk","aC","wk"):
     c14.append(job("quoting-"+sh,"rule/flags","VH_Tokens",["C14/"],{"shape":SHAPES.index(sh),"hole":3,"arghole":2,"quoting":1},Q,
        bounds=f"line shape '{sh}' with every F/C/S/k/w/p argument written in single quotes, bare, or in double quotes (filter text 0..3, other arguments 0..2 symbolic ASCII bytes; bare: non-empty, no blanks; bare and double-quoted: none of \" \\ $ `)"))
+for sh in ("akk","wk","w#pk","wk#","aSk#","aF#","aSk","wpk"):
+    c14.append(job("lookalike-"+sh.replace("#","stray"),"rule/flags","VH_Tokens",["C14/"],{"shape":SHAPES.index(sh),"hole":2,"arghole":1,"mergeprelude":1},Q,
+       bounds=f"line shape '{sh}' (holes of 0..1 symbolic bytes, filter text 0..2), parsed right after a look-alike line in which the last word or flag is folded into the quoted argument before it (-k 'a -k b' then -k a -k b; -k 'a foo' then -k a foo)"))
 c14.append(job("parse-history","rule/flags","VH_ParseHistory",["C14/"],{},Q,expect=["C14/other-line-rejected"],bounds="4 lines x 12 other lines (11 rejected at different places, 1 accepted): Parse(line), Parse(other), Parse(line) give rules that build to the same bytes"))
 C["C14"]={"jobs":c14,"assumptions":PARSE_ASSUME[:2]+["hole bytes are ASCII and free of single quotes, so shell quoting of the assembled line is exact","repeated single-valued flags (-w x -w y, -a .. -a ..) are outside the domain explored: the property does not say whether last-wins is acceptable",
    "filter text is compared after trimming surrounding white space and ignoring white space between field and operator (a parser that trims is not faulted, one that drops non-blank text is)"],
